@@ -27,6 +27,9 @@ typedef Hyst::Params HystParams;
 #endif
 static const int NT = 3;
 static const double SW[NT] = { 0.125, 0.5, 0.875 };        // saturation nodes at fixed positions (keeps the inverse maps linear in the symbolic columns)
+#ifndef KRMODEL
+#define KRMODEL 0          /* EHYSTR item 2: 0 = Carlson for the non-wetting phase, drainage curve for the wetting phase; 1 = Carlson + imbibition curve for the wetting phase */
+#endif
 struct Curve { std::vector<double> sw, krw, krn, pc; };
 // concrete monotone tables (symbolic columns make the inverse map, hence the shift, non-linear in several unknowns at once: z3 gives up);
 // the saturation history and the query point are the symbolic part
@@ -37,7 +40,7 @@ static Curve mkcurve(int which) {
 }
 static EffParams mkeff(const Curve& t) { EffParams p; p.setKrwSamples(t.sw, t.krw); p.setKrnSamples(t.sw, t.krn); p.setPcnwSamples(t.sw, t.pc); p.finalize(); return p; }
 static HystParams mkhyst(const Curve& d, const Curve& im, bool enable) {
-    auto cfg = std::make_shared<Opm::EclHysteresisConfig>(); cfg->setEnableHysteresis(enable); cfg->setKrHysteresisModel(0); cfg->setPcHysteresisModel(-1);
+    auto cfg = std::make_shared<Opm::EclHysteresisConfig>(); cfg->setEnableHysteresis(enable); cfg->setKrHysteresisModel(KRMODEL); cfg->setPcHysteresisModel(-1);
     Opm::EclEpsScalingPointsInfo<double> info{};
     HystParams hp; hp.setConfig(cfg);
     hp.setDrainageParams(mkeff(d), info, Opm::EclTwoPhaseSystemType::OilWater);
@@ -68,8 +71,8 @@ extern "C" void h_carlson(void) {
     }
     // the shift makes the imbibition curve pass through the turning point value
     CEQ(Eff::twoPhaseSatKrn(ip, mdc + hp.deltaSwImbKrn()), kd_mdc);
-    // wetting-phase relperm is not subject to Carlson hysteresis here: drainage curve
-    CEQ(Hyst::twoPhaseSatKrw(hp, q), Eff::twoPhaseSatKrw(dp, q));
+    // wetting-phase relperm is not subject to Carlson hysteresis: drainage curve (model 0) or imbibition curve (model 1)
+    CEQ(Hyst::twoPhaseSatKrw(hp, q), Eff::twoPhaseSatKrw(KRMODEL == 0 ? dp : ip, q));
 }
 extern "C" void h_disabled(void) {
     Curve d = mkcurve(0), im = mkcurve(1);
